@@ -10,6 +10,7 @@ package main
 //      read by the reference controller and compared with the accessory's own database.
 
 import (
+	"time"
 	"bytes"
 	"encoding/base64"
 	"encoding/json"
@@ -479,7 +480,12 @@ func c09Values(c *Ctx) {
 				prev := ch.Value
 				cbVals = nil
 				jb, _ := json.Marshal(v)
-				body := fmt.Sprintf(`{"characteristics":[{"aid":%d,"iid":%d,"value":%s}]}`, acc.ID, ch.ID, jb)
+				// members of the HAP write request that this library does not act on (timed / remote / authorised writes,
+				// write-response) are legal in a request and must not keep the value from being written
+				extraE := []string{"", `,"remote":true`, `,"authData":"YXV0aA=="`, `,"r":true`, `,"remote":false,"authData":"AA=="`}[r.Intn(5)]
+				extraT := []string{"", "", `,"pid":4711`}[r.Intn(3)]
+				body := fmt.Sprintf(`{"characteristics":[{"aid":%d,"iid":%d,"value":%s%s}]%s}`, acc.ID, ch.ID, jb, extraE, extraT)
+				desc["request_body"] = trunc(body, 200)
 				st, resp, _, pmsg := f.Do(addr, "PUT", "/characteristics", "application/hap+json", []byte(body))
 				if pmsg != "" || st != 204 {
 					c.Violate("PUT of a valid value by a verified controller is not accepted", id, desc, "204", fmt.Sprint(st, " ", trunc(string(resp), 200), pmsg))
@@ -629,6 +635,39 @@ func c09EndToEnd(c *Ctx) {
 					}
 				}
 				c.Count(fmt.Sprint("e2e/put/", len(body), want), true, fmt.Sprintf("e2e:put-bytes<=%d", bucketLen2(len(body))))
+			}
+			// a controller that does not wait: a write, and the first bytes of the frame that carries the next write, arrive
+			// together; the rest of that frame only after the first write was answered. Both writes reach the application.
+			if len(targets) >= 2 {
+				for _, cut := range []int{1, 2, 3, 19} {
+					t1, t2 := targets[r.Intn(len(targets))], targets[r.Intn(len(targets))]
+					w1, w2 := t1.ch.Value != true, t2.ch.Value != true
+					if t1 == t2 {
+						w2 = !w1
+					}
+					mk := func(t wref, v bool) []byte {
+						b := fmt.Sprintf(`{"characteristics":[{"aid":%d,"iid":%d,"value":%v}]}`, t.aid, t.ch.ID, v)
+						return cl.sess.Encrypt([]byte(fmt.Sprintf("PUT /characteristics HTTP/1.1\r\nHost: acc.local\r\nContent-Type: application/hap+json\r\nContent-Length: %d\r\n\r\n%s", len(b), b)))
+					}
+					a, b := mk(t1, w1), mk(t2, w2)
+					cl.conn.Write(append(append([]byte{}, a...), b[:cut]...))
+					ma, err := cl.next(cl.timeout)
+					var mb *refMsg
+					if err == nil && ma != nil {
+						time.Sleep(3 * time.Millisecond)
+						cl.conn.Write(b[cut:])
+						mb, err = cl.next(cl.timeout)
+					}
+					in := map[string]interface{}{"two_writes": "the second one's frame starts in the segment that ends the first request", "bytes_of_the_second_frame_sent_early": cut}
+					if err != nil || ma == nil || mb == nil || ma.Status != 204 || mb.Status != 204 {
+						c.Violate("a write of a verified controller whose frame began before the previous request was answered is lost (no answer; the connection is gone)", id, in, "204 and 204", fmt.Sprint(err, ma, mb))
+						return
+					}
+					if t2.ch.Value != w2 || (t1 != t2 && t1.ch.Value != w1) {
+						c.Violate("value written by a verified controller is not what the application reads", id, in, fmt.Sprint(w1, w2), fmt.Sprint(t1.ch.Value, t2.ch.Value))
+					}
+					c.Count(fmt.Sprint("e2e/straddle/", i, cut), true, "e2e:straddling-write")
+				}
 			}
 			// a GET for many ids over the encrypted session
 			var ids []string
